@@ -1,2 +1,8 @@
 import SmtpV.Basic
 import SmtpV.Model.DataReader
+import SmtpV.Spec.Data
+import SmtpV.Spec.DataMon
+import SmtpV.Props.C01
+import SmtpV.Props.C02
+import SmtpV.Props.C06
+import SmtpV.Props.C07
